@@ -956,18 +956,18 @@ static const yytype_int16 yyrline[] =
      484,   489,   490,   496,   499,   515,   524,   566,   567,   572,
      589,   603,   617,   631,   649,   650,   656,   655,   672,   671,
      692,   691,   716,   722,   782,   783,   784,   785,   786,   787,
-     793,   814,   845,   850,   867,   872,   892,   893,   907,   908,
-     909,   910,   911,   915,   916,   930,   934,  1030,  1078,  1139,
-    1185,  1191,  1195,  1230,  1283,  1338,  1369,  1376,  1383,  1396,
-    1407,  1418,  1429,  1440,  1451,  1462,  1473,  1488,  1504,  1516,
-    1591,  1629,  1533,  1758,  1781,  1793,  1821,  1840,  1863,  1911,
-    1918,  1925,  1924,  1971,  1970,  2021,  2029,  2037,  2045,  2053,
-    2061,  2069,  2073,  2081,  2082,  2107,  2127,  2155,  2229,  2261,
-    2279,  2290,  2333,  2349,  2369,  2379,  2378,  2387,  2401,  2402,
-    2407,  2417,  2432,  2431,  2444,  2445,  2450,  2483,  2508,  2564,
-    2571,  2577,  2583,  2593,  2597,  2605,  2617,  2631,  2638,  2645,
-    2670,  2682,  2694,  2706,  2721,  2733,  2748,  2794,  2815,  2850,
-    2885,  2919,  2950,  2973,  2983,  2993,  3003,  3013,  3033,  3053
+     793,   814,   845,   853,   870,   878,   898,   899,   913,   914,
+     915,   916,   917,   921,   922,   936,   940,  1036,  1084,  1145,
+    1191,  1197,  1201,  1236,  1289,  1344,  1375,  1382,  1389,  1402,
+    1413,  1424,  1435,  1446,  1457,  1468,  1479,  1494,  1510,  1522,
+    1597,  1635,  1539,  1764,  1787,  1799,  1827,  1846,  1869,  1917,
+    1924,  1931,  1930,  1977,  1976,  2027,  2035,  2043,  2051,  2059,
+    2067,  2075,  2079,  2087,  2088,  2113,  2133,  2161,  2235,  2267,
+    2285,  2296,  2339,  2355,  2375,  2385,  2384,  2393,  2407,  2408,
+    2413,  2423,  2438,  2437,  2450,  2451,  2456,  2489,  2514,  2570,
+    2577,  2583,  2589,  2599,  2603,  2611,  2623,  2637,  2644,  2651,
+    2676,  2688,  2700,  2712,  2727,  2739,  2754,  2800,  2821,  2856,
+    2891,  2925,  2956,  2979,  2989,  2999,  3009,  3019,  3039,  3059
 };
 #endif
 
@@ -2741,12 +2741,15 @@ yyreduce:
       {
         (yyval.modifier).flags = STRING_FLAGS_BASE64;
         (yyval.modifier).alphabet = ss_new(DEFAULT_BASE64_ALPHABET);
+
+        if ((yyval.modifier).alphabet == NULL)
+          fail_with_error(ERROR_INSUFFICIENT_MEMORY);
       }
-#line 2746 "libyara/grammar.c"
+#line 2749 "libyara/grammar.c"
     break;
 
   case 53: /* string_modifier: "<base64>" '(' "text string" ')'  */
-#line 851 "libyara/grammar.y"
+#line 854 "libyara/grammar.y"
       {
         int result = ERROR_SUCCESS;
 
@@ -2763,20 +2766,23 @@ yyreduce:
         (yyval.modifier).flags = STRING_FLAGS_BASE64;
         (yyval.modifier).alphabet = (yyvsp[-1].sized_string);
       }
-#line 2767 "libyara/grammar.c"
+#line 2770 "libyara/grammar.c"
     break;
 
   case 54: /* string_modifier: "<base64wide>"  */
-#line 868 "libyara/grammar.y"
+#line 871 "libyara/grammar.y"
       {
         (yyval.modifier).flags = STRING_FLAGS_BASE64_WIDE;
         (yyval.modifier).alphabet = ss_new(DEFAULT_BASE64_ALPHABET);
+
+        if ((yyval.modifier).alphabet == NULL)
+          fail_with_error(ERROR_INSUFFICIENT_MEMORY);
       }
-#line 2776 "libyara/grammar.c"
+#line 2782 "libyara/grammar.c"
     break;
 
   case 55: /* string_modifier: "<base64wide>" '(' "text string" ')'  */
-#line 873 "libyara/grammar.y"
+#line 879 "libyara/grammar.y"
       {
         int result = ERROR_SUCCESS;
 
@@ -2793,17 +2799,17 @@ yyreduce:
         (yyval.modifier).flags = STRING_FLAGS_BASE64_WIDE;
         (yyval.modifier).alphabet = (yyvsp[-1].sized_string);
       }
-#line 2797 "libyara/grammar.c"
-    break;
-
-  case 56: /* regexp_modifiers: %empty  */
-#line 892 "libyara/grammar.y"
-                                          { (yyval.modifier).flags = 0; }
 #line 2803 "libyara/grammar.c"
     break;
 
+  case 56: /* regexp_modifiers: %empty  */
+#line 898 "libyara/grammar.y"
+                                          { (yyval.modifier).flags = 0; }
+#line 2809 "libyara/grammar.c"
+    break;
+
   case 57: /* regexp_modifiers: regexp_modifiers regexp_modifier  */
-#line 894 "libyara/grammar.y"
+#line 900 "libyara/grammar.y"
       {
         if ((yyvsp[-1].modifier).flags & (yyvsp[0].modifier).flags)
         {
@@ -2814,47 +2820,47 @@ yyreduce:
           (yyval.modifier).flags = (yyvsp[-1].modifier).flags | (yyvsp[0].modifier).flags;
         }
       }
-#line 2818 "libyara/grammar.c"
-    break;
-
-  case 58: /* regexp_modifier: "<wide>"  */
-#line 907 "libyara/grammar.y"
-                    { (yyval.modifier).flags = STRING_FLAGS_WIDE; }
 #line 2824 "libyara/grammar.c"
     break;
 
-  case 59: /* regexp_modifier: "<ascii>"  */
-#line 908 "libyara/grammar.y"
-                    { (yyval.modifier).flags = STRING_FLAGS_ASCII; }
+  case 58: /* regexp_modifier: "<wide>"  */
+#line 913 "libyara/grammar.y"
+                    { (yyval.modifier).flags = STRING_FLAGS_WIDE; }
 #line 2830 "libyara/grammar.c"
     break;
 
-  case 60: /* regexp_modifier: "<nocase>"  */
-#line 909 "libyara/grammar.y"
-                    { (yyval.modifier).flags = STRING_FLAGS_NO_CASE; }
+  case 59: /* regexp_modifier: "<ascii>"  */
+#line 914 "libyara/grammar.y"
+                    { (yyval.modifier).flags = STRING_FLAGS_ASCII; }
 #line 2836 "libyara/grammar.c"
     break;
 
-  case 61: /* regexp_modifier: "<fullword>"  */
-#line 910 "libyara/grammar.y"
-                    { (yyval.modifier).flags = STRING_FLAGS_FULL_WORD; }
+  case 60: /* regexp_modifier: "<nocase>"  */
+#line 915 "libyara/grammar.y"
+                    { (yyval.modifier).flags = STRING_FLAGS_NO_CASE; }
 #line 2842 "libyara/grammar.c"
     break;
 
-  case 62: /* regexp_modifier: "<private>"  */
-#line 911 "libyara/grammar.y"
-                    { (yyval.modifier).flags = STRING_FLAGS_PRIVATE; }
+  case 61: /* regexp_modifier: "<fullword>"  */
+#line 916 "libyara/grammar.y"
+                    { (yyval.modifier).flags = STRING_FLAGS_FULL_WORD; }
 #line 2848 "libyara/grammar.c"
     break;
 
-  case 63: /* hex_modifiers: %empty  */
-#line 915 "libyara/grammar.y"
-                                          { (yyval.modifier).flags = 0; }
+  case 62: /* regexp_modifier: "<private>"  */
+#line 917 "libyara/grammar.y"
+                    { (yyval.modifier).flags = STRING_FLAGS_PRIVATE; }
 #line 2854 "libyara/grammar.c"
     break;
 
+  case 63: /* hex_modifiers: %empty  */
+#line 921 "libyara/grammar.y"
+                                          { (yyval.modifier).flags = 0; }
+#line 2860 "libyara/grammar.c"
+    break;
+
   case 64: /* hex_modifiers: hex_modifiers hex_modifier  */
-#line 917 "libyara/grammar.y"
+#line 923 "libyara/grammar.y"
       {
         if ((yyvsp[-1].modifier).flags & (yyvsp[0].modifier).flags)
         {
@@ -2865,17 +2871,17 @@ yyreduce:
           (yyval.modifier).flags = (yyvsp[-1].modifier).flags | (yyvsp[0].modifier).flags;
         }
       }
-#line 2869 "libyara/grammar.c"
-    break;
-
-  case 65: /* hex_modifier: "<private>"  */
-#line 930 "libyara/grammar.y"
-                    { (yyval.modifier).flags = STRING_FLAGS_PRIVATE; }
 #line 2875 "libyara/grammar.c"
     break;
 
+  case 65: /* hex_modifier: "<private>"  */
+#line 936 "libyara/grammar.y"
+                    { (yyval.modifier).flags = STRING_FLAGS_PRIVATE; }
+#line 2881 "libyara/grammar.c"
+    break;
+
   case 66: /* identifier: "identifier"  */
-#line 935 "libyara/grammar.y"
+#line 941 "libyara/grammar.y"
       {
         YR_EXPRESSION expr;
 
@@ -2971,11 +2977,11 @@ yyreduce:
 
         fail_if_error(result);
       }
-#line 2975 "libyara/grammar.c"
+#line 2981 "libyara/grammar.c"
     break;
 
   case 67: /* identifier: identifier '.' "identifier"  */
-#line 1031 "libyara/grammar.y"
+#line 1037 "libyara/grammar.y"
       {
         int result = ERROR_SUCCESS;
         YR_OBJECT* field = NULL;
@@ -3023,11 +3029,11 @@ yyreduce:
 
         fail_if_error(result);
       }
-#line 3027 "libyara/grammar.c"
+#line 3033 "libyara/grammar.c"
     break;
 
   case 68: /* identifier: identifier '[' primary_expression ']'  */
-#line 1079 "libyara/grammar.y"
+#line 1085 "libyara/grammar.y"
       {
         int result = ERROR_SUCCESS;
         YR_OBJECT_ARRAY* array;
@@ -3087,11 +3093,11 @@ yyreduce:
 
         fail_if_error(result);
       }
-#line 3091 "libyara/grammar.c"
+#line 3097 "libyara/grammar.c"
     break;
 
   case 69: /* identifier: identifier '(' arguments ')'  */
-#line 1140 "libyara/grammar.y"
+#line 1146 "libyara/grammar.y"
       {
         YR_ARENA_REF ref = YR_ARENA_NULL_REF;
         int result = ERROR_SUCCESS;
@@ -3132,28 +3138,28 @@ yyreduce:
 
         fail_if_error(result);
       }
-#line 3136 "libyara/grammar.c"
+#line 3142 "libyara/grammar.c"
     break;
 
   case 70: /* arguments: %empty  */
-#line 1185 "libyara/grammar.y"
+#line 1191 "libyara/grammar.y"
       {
         (yyval.c_string) = yr_strdup("");
 
         if ((yyval.c_string) == NULL)
           fail_with_error(ERROR_INSUFFICIENT_MEMORY);
       }
-#line 3147 "libyara/grammar.c"
-    break;
-
-  case 71: /* arguments: arguments_list  */
-#line 1191 "libyara/grammar.y"
-                      { (yyval.c_string) = (yyvsp[0].c_string); }
 #line 3153 "libyara/grammar.c"
     break;
 
+  case 71: /* arguments: arguments_list  */
+#line 1197 "libyara/grammar.y"
+                      { (yyval.c_string) = (yyvsp[0].c_string); }
+#line 3159 "libyara/grammar.c"
+    break;
+
   case 72: /* arguments_list: expression  */
-#line 1196 "libyara/grammar.y"
+#line 1202 "libyara/grammar.y"
       {
         (yyval.c_string) = (char*) yr_malloc(YR_MAX_FUNCTION_ARGS + 1);
 
@@ -3188,11 +3194,11 @@ yyreduce:
             assert(compiler->last_error != ERROR_SUCCESS);
         }
       }
-#line 3192 "libyara/grammar.c"
+#line 3198 "libyara/grammar.c"
     break;
 
   case 73: /* arguments_list: arguments_list ',' expression  */
-#line 1231 "libyara/grammar.y"
+#line 1237 "libyara/grammar.y"
       {
         int result = ERROR_SUCCESS;
 
@@ -3241,11 +3247,11 @@ yyreduce:
 
         (yyval.c_string) = (yyvsp[-2].c_string);
       }
-#line 3245 "libyara/grammar.c"
+#line 3251 "libyara/grammar.c"
     break;
 
   case 74: /* regexp: "regular expression"  */
-#line 1284 "libyara/grammar.y"
+#line 1290 "libyara/grammar.y"
       {
         YR_ARENA_REF re_ref;
         RE_ERROR error;
@@ -3296,11 +3302,11 @@ yyreduce:
 
         (yyval.expression).type = EXPRESSION_TYPE_REGEXP;
       }
-#line 3300 "libyara/grammar.c"
+#line 3306 "libyara/grammar.c"
     break;
 
   case 75: /* boolean_expression: expression  */
-#line 1339 "libyara/grammar.y"
+#line 1345 "libyara/grammar.y"
       {
         if ((yyvsp[0].expression).type == EXPRESSION_TYPE_STRING)
         {
@@ -3328,33 +3334,33 @@ yyreduce:
 
         (yyval.expression).type = EXPRESSION_TYPE_BOOLEAN;
       }
-#line 3332 "libyara/grammar.c"
+#line 3338 "libyara/grammar.c"
     break;
 
   case 76: /* expression: "<true>"  */
-#line 1370 "libyara/grammar.y"
+#line 1376 "libyara/grammar.y"
       {
         fail_if_error(yr_parser_emit_push_const(yyscanner, 1));
 
         (yyval.expression).type = EXPRESSION_TYPE_BOOLEAN;
         (yyval.expression).required_strings.count = 0;
       }
-#line 3343 "libyara/grammar.c"
+#line 3349 "libyara/grammar.c"
     break;
 
   case 77: /* expression: "<false>"  */
-#line 1377 "libyara/grammar.y"
+#line 1383 "libyara/grammar.y"
       {
         fail_if_error(yr_parser_emit_push_const(yyscanner, 0));
 
         (yyval.expression).type = EXPRESSION_TYPE_BOOLEAN;
         (yyval.expression).required_strings.count = 0;
       }
-#line 3354 "libyara/grammar.c"
+#line 3360 "libyara/grammar.c"
     break;
 
   case 78: /* expression: primary_expression "<matches>" regexp  */
-#line 1384 "libyara/grammar.y"
+#line 1390 "libyara/grammar.y"
       {
         check_type((yyvsp[-2].expression), EXPRESSION_TYPE_STRING, "matches");
         check_type((yyvsp[0].expression), EXPRESSION_TYPE_REGEXP, "matches");
@@ -3367,11 +3373,11 @@ yyreduce:
         (yyval.expression).type = EXPRESSION_TYPE_BOOLEAN;
         (yyval.expression).required_strings.count = 0;
       }
-#line 3371 "libyara/grammar.c"
+#line 3377 "libyara/grammar.c"
     break;
 
   case 79: /* expression: primary_expression "<contains>" primary_expression  */
-#line 1397 "libyara/grammar.y"
+#line 1403 "libyara/grammar.y"
       {
         check_type((yyvsp[-2].expression), EXPRESSION_TYPE_STRING, "contains");
         check_type((yyvsp[0].expression), EXPRESSION_TYPE_STRING, "contains");
@@ -3382,11 +3388,11 @@ yyreduce:
         (yyval.expression).type = EXPRESSION_TYPE_BOOLEAN;
         (yyval.expression).required_strings.count = 0;
       }
-#line 3386 "libyara/grammar.c"
+#line 3392 "libyara/grammar.c"
     break;
 
   case 80: /* expression: primary_expression "<icontains>" primary_expression  */
-#line 1408 "libyara/grammar.y"
+#line 1414 "libyara/grammar.y"
       {
         check_type((yyvsp[-2].expression), EXPRESSION_TYPE_STRING, "icontains");
         check_type((yyvsp[0].expression), EXPRESSION_TYPE_STRING, "icontains");
@@ -3397,11 +3403,11 @@ yyreduce:
         (yyval.expression).type = EXPRESSION_TYPE_BOOLEAN;
         (yyval.expression).required_strings.count = 0;
       }
-#line 3401 "libyara/grammar.c"
+#line 3407 "libyara/grammar.c"
     break;
 
   case 81: /* expression: primary_expression "<startswith>" primary_expression  */
-#line 1419 "libyara/grammar.y"
+#line 1425 "libyara/grammar.y"
       {
         check_type((yyvsp[-2].expression), EXPRESSION_TYPE_STRING, "startswith");
         check_type((yyvsp[0].expression), EXPRESSION_TYPE_STRING, "startswith");
@@ -3412,11 +3418,11 @@ yyreduce:
         (yyval.expression).type = EXPRESSION_TYPE_BOOLEAN;
         (yyval.expression).required_strings.count = 0;
       }
-#line 3416 "libyara/grammar.c"
+#line 3422 "libyara/grammar.c"
     break;
 
   case 82: /* expression: primary_expression "<istartswith>" primary_expression  */
-#line 1430 "libyara/grammar.y"
+#line 1436 "libyara/grammar.y"
       {
         check_type((yyvsp[-2].expression), EXPRESSION_TYPE_STRING, "istartswith");
         check_type((yyvsp[0].expression), EXPRESSION_TYPE_STRING, "istartswith");
@@ -3427,11 +3433,11 @@ yyreduce:
         (yyval.expression).type = EXPRESSION_TYPE_BOOLEAN;
         (yyval.expression).required_strings.count = 0;
       }
-#line 3431 "libyara/grammar.c"
+#line 3437 "libyara/grammar.c"
     break;
 
   case 83: /* expression: primary_expression "<endswith>" primary_expression  */
-#line 1441 "libyara/grammar.y"
+#line 1447 "libyara/grammar.y"
       {
         check_type((yyvsp[-2].expression), EXPRESSION_TYPE_STRING, "endswith");
         check_type((yyvsp[0].expression), EXPRESSION_TYPE_STRING, "endswith");
@@ -3442,11 +3448,11 @@ yyreduce:
         (yyval.expression).type = EXPRESSION_TYPE_BOOLEAN;
         (yyval.expression).required_strings.count = 0;
       }
-#line 3446 "libyara/grammar.c"
+#line 3452 "libyara/grammar.c"
     break;
 
   case 84: /* expression: primary_expression "<iendswith>" primary_expression  */
-#line 1452 "libyara/grammar.y"
+#line 1458 "libyara/grammar.y"
       {
         check_type((yyvsp[-2].expression), EXPRESSION_TYPE_STRING, "iendswith");
         check_type((yyvsp[0].expression), EXPRESSION_TYPE_STRING, "iendswith");
@@ -3457,11 +3463,11 @@ yyreduce:
         (yyval.expression).type = EXPRESSION_TYPE_BOOLEAN;
         (yyval.expression).required_strings.count = 0;
       }
-#line 3461 "libyara/grammar.c"
+#line 3467 "libyara/grammar.c"
     break;
 
   case 85: /* expression: primary_expression "<iequals>" primary_expression  */
-#line 1463 "libyara/grammar.y"
+#line 1469 "libyara/grammar.y"
       {
         check_type((yyvsp[-2].expression), EXPRESSION_TYPE_STRING, "iequals");
         check_type((yyvsp[0].expression), EXPRESSION_TYPE_STRING, "iequals");
@@ -3472,11 +3478,11 @@ yyreduce:
         (yyval.expression).type = EXPRESSION_TYPE_BOOLEAN;
         (yyval.expression).required_strings.count = 0;
       }
-#line 3476 "libyara/grammar.c"
+#line 3482 "libyara/grammar.c"
     break;
 
   case 86: /* expression: "string identifier"  */
-#line 1474 "libyara/grammar.y"
+#line 1480 "libyara/grammar.y"
       {
         int result = yr_parser_reduce_string_identifier(
             yyscanner,
@@ -3491,11 +3497,11 @@ yyreduce:
         (yyval.expression).type = EXPRESSION_TYPE_BOOLEAN;
         (yyval.expression).required_strings.count = 1;
       }
-#line 3495 "libyara/grammar.c"
+#line 3501 "libyara/grammar.c"
     break;
 
   case 87: /* expression: "string identifier" "<at>" primary_expression  */
-#line 1489 "libyara/grammar.y"
+#line 1495 "libyara/grammar.y"
       {
         int result;
 
@@ -3511,11 +3517,11 @@ yyreduce:
         (yyval.expression).required_strings.count = 1;
         (yyval.expression).type = EXPRESSION_TYPE_BOOLEAN;
       }
-#line 3515 "libyara/grammar.c"
+#line 3521 "libyara/grammar.c"
     break;
 
   case 88: /* expression: "string identifier" "<in>" range  */
-#line 1505 "libyara/grammar.y"
+#line 1511 "libyara/grammar.y"
       {
         int result = yr_parser_reduce_string_identifier(
             yyscanner, (yyvsp[-2].c_string), OP_FOUND_IN, YR_UNDEFINED);
@@ -3527,11 +3533,11 @@ yyreduce:
         (yyval.expression).required_strings.count = 1;
         (yyval.expression).type = EXPRESSION_TYPE_BOOLEAN;
       }
-#line 3531 "libyara/grammar.c"
+#line 3537 "libyara/grammar.c"
     break;
 
   case 89: /* expression: "<for>" for_expression error  */
-#line 1517 "libyara/grammar.y"
+#line 1523 "libyara/grammar.y"
       {
         // Free all the loop variable identifiers, including the variables for
         // the current loop (represented by loop_index), and set loop_index to
@@ -3548,11 +3554,11 @@ yyreduce:
         compiler->loop_index = -1;
         YYERROR;
       }
-#line 3552 "libyara/grammar.c"
+#line 3558 "libyara/grammar.c"
     break;
 
   case 90: /* $@6: %empty  */
-#line 1591 "libyara/grammar.y"
+#line 1597 "libyara/grammar.y"
       {
         // var_frame is used for accessing local variables used in this loop.
         // All local variables are accessed using var_frame as a reference,
@@ -3590,11 +3596,11 @@ yyreduce:
         fail_if_error(yr_parser_emit_with_arg(
             yyscanner, OP_POP_M, var_frame + 2, NULL, NULL));
       }
-#line 3594 "libyara/grammar.c"
+#line 3600 "libyara/grammar.c"
     break;
 
   case 91: /* $@7: %empty  */
-#line 1629 "libyara/grammar.y"
+#line 1635 "libyara/grammar.y"
       {
         YR_LOOP_CONTEXT* loop_ctx = &compiler->loop[compiler->loop_index];
         YR_FIXUP* fixup;
@@ -3643,11 +3649,11 @@ yyreduce:
 
         loop_ctx->start_ref = loop_start_ref;
       }
-#line 3647 "libyara/grammar.c"
+#line 3653 "libyara/grammar.c"
     break;
 
   case 92: /* expression: "<for>" for_expression $@6 for_iteration ':' $@7 '(' boolean_expression ')'  */
-#line 1678 "libyara/grammar.y"
+#line 1684 "libyara/grammar.y"
       {
         int32_t jmp_offset;
         YR_FIXUP* fixup;
@@ -3728,11 +3734,11 @@ yyreduce:
         (yyval.expression).type = EXPRESSION_TYPE_BOOLEAN;
         (yyval.expression).required_strings.count = 0;
       }
-#line 3732 "libyara/grammar.c"
+#line 3738 "libyara/grammar.c"
     break;
 
   case 93: /* expression: for_expression "<of>" string_set  */
-#line 1759 "libyara/grammar.y"
+#line 1765 "libyara/grammar.y"
       {
         if ((yyvsp[-2].expression).type == EXPRESSION_TYPE_INTEGER && (yyvsp[-2].expression).value.integer > (yyvsp[0].integer))
         {
@@ -3755,11 +3761,11 @@ yyreduce:
 
         (yyval.expression).type = EXPRESSION_TYPE_BOOLEAN;
       }
-#line 3759 "libyara/grammar.c"
+#line 3765 "libyara/grammar.c"
     break;
 
   case 94: /* expression: for_expression "<of>" rule_set  */
-#line 1782 "libyara/grammar.y"
+#line 1788 "libyara/grammar.y"
       {
         if ((yyvsp[-2].expression).type == EXPRESSION_TYPE_INTEGER && (yyvsp[-2].expression).value.integer > (yyvsp[0].integer))
         {
@@ -3771,11 +3777,11 @@ yyreduce:
         (yyval.expression).type = EXPRESSION_TYPE_BOOLEAN;
         (yyval.expression).required_strings.count = 0;
       }
-#line 3775 "libyara/grammar.c"
+#line 3781 "libyara/grammar.c"
     break;
 
   case 95: /* expression: primary_expression '%' "<of>" string_set  */
-#line 1794 "libyara/grammar.y"
+#line 1800 "libyara/grammar.y"
       {
         check_type((yyvsp[-3].expression), EXPRESSION_TYPE_INTEGER, "%");
 
@@ -3803,11 +3809,11 @@ yyreduce:
 
         yr_parser_emit_with_arg(yyscanner, OP_OF_PERCENT, OF_STRING_SET, NULL, NULL);
       }
-#line 3807 "libyara/grammar.c"
+#line 3813 "libyara/grammar.c"
     break;
 
   case 96: /* expression: primary_expression '%' "<of>" rule_set  */
-#line 1822 "libyara/grammar.y"
+#line 1828 "libyara/grammar.y"
       {
         check_type((yyvsp[-3].expression), EXPRESSION_TYPE_INTEGER, "%");
 
@@ -3826,11 +3832,11 @@ yyreduce:
 
         yr_parser_emit_with_arg(yyscanner, OP_OF_PERCENT, OF_RULE_SET, NULL, NULL);
       }
-#line 3830 "libyara/grammar.c"
+#line 3836 "libyara/grammar.c"
     break;
 
   case 97: /* expression: for_expression "<of>" string_set "<in>" range  */
-#line 1841 "libyara/grammar.y"
+#line 1847 "libyara/grammar.y"
       {
         if ((yyvsp[-4].expression).type == EXPRESSION_TYPE_INTEGER && (yyvsp[-4].expression).value.integer > (yyvsp[-2].integer))
         {
@@ -3853,11 +3859,11 @@ yyreduce:
 
         (yyval.expression).type = EXPRESSION_TYPE_BOOLEAN;
       }
-#line 3857 "libyara/grammar.c"
+#line 3863 "libyara/grammar.c"
     break;
 
   case 98: /* expression: for_expression "<of>" string_set "<at>" primary_expression  */
-#line 1864 "libyara/grammar.y"
+#line 1870 "libyara/grammar.y"
       {
         if ((yyvsp[0].expression).type != EXPRESSION_TYPE_INTEGER)
         {
@@ -3905,32 +3911,32 @@ yyreduce:
 
         (yyval.expression).type = EXPRESSION_TYPE_BOOLEAN;
       }
-#line 3909 "libyara/grammar.c"
+#line 3915 "libyara/grammar.c"
     break;
 
   case 99: /* expression: "<not>" boolean_expression  */
-#line 1912 "libyara/grammar.y"
+#line 1918 "libyara/grammar.y"
       {
         yr_parser_emit(yyscanner, OP_NOT, NULL);
 
         (yyval.expression).type = EXPRESSION_TYPE_BOOLEAN;
         (yyval.expression).required_strings.count = 0;
       }
-#line 3920 "libyara/grammar.c"
+#line 3926 "libyara/grammar.c"
     break;
 
   case 100: /* expression: "<defined>" boolean_expression  */
-#line 1919 "libyara/grammar.y"
+#line 1925 "libyara/grammar.y"
       {
         yr_parser_emit(yyscanner, OP_DEFINED, NULL);
         (yyval.expression).type = EXPRESSION_TYPE_BOOLEAN;
         (yyval.expression).required_strings.count = 0;
       }
-#line 3930 "libyara/grammar.c"
+#line 3936 "libyara/grammar.c"
     break;
 
   case 101: /* $@8: %empty  */
-#line 1925 "libyara/grammar.y"
+#line 1931 "libyara/grammar.y"
       {
         YR_FIXUP* fixup;
         YR_ARENA_REF jmp_offset_ref;
@@ -3952,11 +3958,11 @@ yyreduce:
         fixup->next = compiler->fixup_stack_head;
         compiler->fixup_stack_head = fixup;
       }
-#line 3956 "libyara/grammar.c"
+#line 3962 "libyara/grammar.c"
     break;
 
   case 102: /* expression: boolean_expression "<and>" $@8 boolean_expression  */
-#line 1947 "libyara/grammar.y"
+#line 1953 "libyara/grammar.y"
       {
         YR_FIXUP* fixup;
 
@@ -3980,11 +3986,11 @@ yyreduce:
         (yyval.expression).type = EXPRESSION_TYPE_BOOLEAN;
         (yyval.expression).required_strings.count = (yyvsp[0].expression).required_strings.count + (yyvsp[-3].expression).required_strings.count;
       }
-#line 3984 "libyara/grammar.c"
+#line 3990 "libyara/grammar.c"
     break;
 
   case 103: /* $@9: %empty  */
-#line 1971 "libyara/grammar.y"
+#line 1977 "libyara/grammar.y"
       {
         YR_FIXUP* fixup;
         YR_ARENA_REF jmp_offset_ref;
@@ -4005,11 +4011,11 @@ yyreduce:
         fixup->next = compiler->fixup_stack_head;
         compiler->fixup_stack_head = fixup;
       }
-#line 4009 "libyara/grammar.c"
+#line 4015 "libyara/grammar.c"
     break;
 
   case 104: /* expression: boolean_expression "<or>" $@9 boolean_expression  */
-#line 1992 "libyara/grammar.y"
+#line 1998 "libyara/grammar.y"
       {
         YR_FIXUP* fixup;
 
@@ -4039,11 +4045,11 @@ yyreduce:
           (yyval.expression).required_strings.count = (yyvsp[-3].expression).required_strings.count;
         }
       }
-#line 4043 "libyara/grammar.c"
+#line 4049 "libyara/grammar.c"
     break;
 
   case 105: /* expression: primary_expression "<" primary_expression  */
-#line 2022 "libyara/grammar.y"
+#line 2028 "libyara/grammar.y"
       {
         fail_if_error(yr_parser_reduce_operation(
             yyscanner, "<", (yyvsp[-2].expression), (yyvsp[0].expression)));
@@ -4051,11 +4057,11 @@ yyreduce:
         (yyval.expression).type = EXPRESSION_TYPE_BOOLEAN;
         (yyval.expression).required_strings.count = 0;
       }
-#line 4055 "libyara/grammar.c"
+#line 4061 "libyara/grammar.c"
     break;
 
   case 106: /* expression: primary_expression ">" primary_expression  */
-#line 2030 "libyara/grammar.y"
+#line 2036 "libyara/grammar.y"
       {
         fail_if_error(yr_parser_reduce_operation(
             yyscanner, ">", (yyvsp[-2].expression), (yyvsp[0].expression)));
@@ -4063,11 +4069,11 @@ yyreduce:
         (yyval.expression).type = EXPRESSION_TYPE_BOOLEAN;
         (yyval.expression).required_strings.count = 0;
       }
-#line 4067 "libyara/grammar.c"
+#line 4073 "libyara/grammar.c"
     break;
 
   case 107: /* expression: primary_expression "<=" primary_expression  */
-#line 2038 "libyara/grammar.y"
+#line 2044 "libyara/grammar.y"
       {
         fail_if_error(yr_parser_reduce_operation(
             yyscanner, "<=", (yyvsp[-2].expression), (yyvsp[0].expression)));
@@ -4075,11 +4081,11 @@ yyreduce:
         (yyval.expression).type = EXPRESSION_TYPE_BOOLEAN;
         (yyval.expression).required_strings.count = 0;
       }
-#line 4079 "libyara/grammar.c"
+#line 4085 "libyara/grammar.c"
     break;
 
   case 108: /* expression: primary_expression ">=" primary_expression  */
-#line 2046 "libyara/grammar.y"
+#line 2052 "libyara/grammar.y"
       {
         fail_if_error(yr_parser_reduce_operation(
             yyscanner, ">=", (yyvsp[-2].expression), (yyvsp[0].expression)));
@@ -4087,11 +4093,11 @@ yyreduce:
         (yyval.expression).type = EXPRESSION_TYPE_BOOLEAN;
         (yyval.expression).required_strings.count = 0;
       }
-#line 4091 "libyara/grammar.c"
+#line 4097 "libyara/grammar.c"
     break;
 
   case 109: /* expression: primary_expression "==" primary_expression  */
-#line 2054 "libyara/grammar.y"
+#line 2060 "libyara/grammar.y"
       {
         fail_if_error(yr_parser_reduce_operation(
             yyscanner, "==", (yyvsp[-2].expression), (yyvsp[0].expression)));
@@ -4099,11 +4105,11 @@ yyreduce:
         (yyval.expression).type = EXPRESSION_TYPE_BOOLEAN;
         (yyval.expression).required_strings.count = 0;
       }
-#line 4103 "libyara/grammar.c"
+#line 4109 "libyara/grammar.c"
     break;
 
   case 110: /* expression: primary_expression "!=" primary_expression  */
-#line 2062 "libyara/grammar.y"
+#line 2068 "libyara/grammar.y"
       {
         fail_if_error(yr_parser_reduce_operation(
             yyscanner, "!=", (yyvsp[-2].expression), (yyvsp[0].expression)));
@@ -4111,33 +4117,33 @@ yyreduce:
         (yyval.expression).type = EXPRESSION_TYPE_BOOLEAN;
         (yyval.expression).required_strings.count = 0;
       }
-#line 4115 "libyara/grammar.c"
+#line 4121 "libyara/grammar.c"
     break;
 
   case 111: /* expression: primary_expression  */
-#line 2070 "libyara/grammar.y"
+#line 2076 "libyara/grammar.y"
       {
         (yyval.expression) = (yyvsp[0].expression);
       }
-#line 4123 "libyara/grammar.c"
+#line 4129 "libyara/grammar.c"
     break;
 
   case 112: /* expression: '(' expression ')'  */
-#line 2074 "libyara/grammar.y"
+#line 2080 "libyara/grammar.y"
       {
         (yyval.expression) = (yyvsp[-1].expression);
       }
-#line 4131 "libyara/grammar.c"
-    break;
-
-  case 113: /* for_iteration: for_variables "<in>" iterator  */
-#line 2081 "libyara/grammar.y"
-                                  { (yyval.integer) = FOR_ITERATION_ITERATOR; }
 #line 4137 "libyara/grammar.c"
     break;
 
+  case 113: /* for_iteration: for_variables "<in>" iterator  */
+#line 2087 "libyara/grammar.y"
+                                  { (yyval.integer) = FOR_ITERATION_ITERATOR; }
+#line 4143 "libyara/grammar.c"
+    break;
+
   case 114: /* for_iteration: "<of>" string_iterator  */
-#line 2083 "libyara/grammar.y"
+#line 2089 "libyara/grammar.y"
       {
         int var_frame;
         int result = ERROR_SUCCESS;
@@ -4158,11 +4164,11 @@ yyreduce:
 
         (yyval.integer) = FOR_ITERATION_STRING_SET;
       }
-#line 4162 "libyara/grammar.c"
+#line 4168 "libyara/grammar.c"
     break;
 
   case 115: /* for_variables: "identifier"  */
-#line 2108 "libyara/grammar.y"
+#line 2114 "libyara/grammar.y"
       {
         int result = ERROR_SUCCESS;
 
@@ -4182,11 +4188,11 @@ yyreduce:
 
         assert(loop_ctx->vars_count <= YR_MAX_LOOP_VARS);
       }
-#line 4186 "libyara/grammar.c"
+#line 4192 "libyara/grammar.c"
     break;
 
   case 116: /* for_variables: for_variables ',' "identifier"  */
-#line 2128 "libyara/grammar.y"
+#line 2134 "libyara/grammar.y"
       {
         int result = ERROR_SUCCESS;
 
@@ -4211,11 +4217,11 @@ yyreduce:
 
         loop_ctx->vars[loop_ctx->vars_count++].identifier.ptr = (yyvsp[0].c_string);
       }
-#line 4215 "libyara/grammar.c"
+#line 4221 "libyara/grammar.c"
     break;
 
   case 117: /* iterator: identifier  */
-#line 2156 "libyara/grammar.y"
+#line 2162 "libyara/grammar.y"
       {
         YR_LOOP_CONTEXT* loop_ctx = &compiler->loop[compiler->loop_index];
 
@@ -4289,11 +4295,11 @@ yyreduce:
 
         fail_if_error(result);
       }
-#line 4293 "libyara/grammar.c"
+#line 4299 "libyara/grammar.c"
     break;
 
   case 118: /* iterator: set  */
-#line 2230 "libyara/grammar.y"
+#line 2236 "libyara/grammar.y"
       {
         int result = ERROR_SUCCESS;
 
@@ -4321,11 +4327,11 @@ yyreduce:
 
         fail_if_error(result);
       }
-#line 4325 "libyara/grammar.c"
+#line 4331 "libyara/grammar.c"
     break;
 
   case 119: /* set: '(' enumeration ')'  */
-#line 2262 "libyara/grammar.y"
+#line 2268 "libyara/grammar.y"
       {
         // $2.count contains the number of items in the enumeration
         fail_if_error(yr_parser_emit_push_const(yyscanner, (yyvsp[-1].enumeration).count));
@@ -4343,22 +4349,22 @@ yyreduce:
 
         (yyval.enumeration).type = (yyvsp[-1].enumeration).type;
       }
-#line 4347 "libyara/grammar.c"
+#line 4353 "libyara/grammar.c"
     break;
 
   case 120: /* set: range  */
-#line 2280 "libyara/grammar.y"
+#line 2286 "libyara/grammar.y"
       {
         fail_if_error(yr_parser_emit(
             yyscanner, OP_ITER_START_INT_RANGE, NULL));
 
         (yyval.enumeration).type = EXPRESSION_TYPE_INTEGER;
       }
-#line 4358 "libyara/grammar.c"
+#line 4364 "libyara/grammar.c"
     break;
 
   case 121: /* range: '(' primary_expression ".." primary_expression ')'  */
-#line 2291 "libyara/grammar.y"
+#line 2297 "libyara/grammar.y"
       {
         int result = ERROR_SUCCESS;
 
@@ -4397,11 +4403,11 @@ yyreduce:
 
         fail_if_error(result);
       }
-#line 4401 "libyara/grammar.c"
+#line 4407 "libyara/grammar.c"
     break;
 
   case 122: /* enumeration: primary_expression  */
-#line 2334 "libyara/grammar.y"
+#line 2340 "libyara/grammar.y"
       {
         int result = ERROR_SUCCESS;
 
@@ -4417,11 +4423,11 @@ yyreduce:
         (yyval.enumeration).type = (yyvsp[0].expression).type;
         (yyval.enumeration).count = 1;
       }
-#line 4421 "libyara/grammar.c"
+#line 4427 "libyara/grammar.c"
     break;
 
   case 123: /* enumeration: enumeration ',' primary_expression  */
-#line 2350 "libyara/grammar.y"
+#line 2356 "libyara/grammar.y"
       {
         int result = ERROR_SUCCESS;
 
@@ -4437,38 +4443,38 @@ yyreduce:
         (yyval.enumeration).type = (yyvsp[-2].enumeration).type;
         (yyval.enumeration).count = (yyvsp[-2].enumeration).count + 1;
       }
-#line 4441 "libyara/grammar.c"
+#line 4447 "libyara/grammar.c"
     break;
 
   case 124: /* string_iterator: string_set  */
-#line 2370 "libyara/grammar.y"
+#line 2376 "libyara/grammar.y"
       {
         fail_if_error(yr_parser_emit_push_const(yyscanner, (yyvsp[0].integer)));
         fail_if_error(yr_parser_emit(yyscanner, OP_ITER_START_STRING_SET,
             NULL));
       }
-#line 4451 "libyara/grammar.c"
+#line 4457 "libyara/grammar.c"
     break;
 
   case 125: /* $@10: %empty  */
-#line 2379 "libyara/grammar.y"
+#line 2385 "libyara/grammar.y"
       {
         // Push end-of-list marker
         yr_parser_emit_push_const(yyscanner, YR_UNDEFINED);
       }
-#line 4460 "libyara/grammar.c"
+#line 4466 "libyara/grammar.c"
     break;
 
   case 126: /* string_set: '(' $@10 string_enumeration ')'  */
-#line 2384 "libyara/grammar.y"
+#line 2390 "libyara/grammar.y"
       {
         (yyval.integer) = (yyvsp[-1].integer);
       }
-#line 4468 "libyara/grammar.c"
+#line 4474 "libyara/grammar.c"
     break;
 
   case 127: /* string_set: "<them>"  */
-#line 2388 "libyara/grammar.y"
+#line 2394 "libyara/grammar.y"
       {
         fail_if_error(yr_parser_emit_push_const(yyscanner, YR_UNDEFINED));
 
@@ -4478,23 +4484,23 @@ yyreduce:
 
         (yyval.integer) = count;
       }
-#line 4482 "libyara/grammar.c"
-    break;
-
-  case 128: /* string_enumeration: string_enumeration_item  */
-#line 2401 "libyara/grammar.y"
-                              { (yyval.integer) = (yyvsp[0].integer); }
 #line 4488 "libyara/grammar.c"
     break;
 
-  case 129: /* string_enumeration: string_enumeration ',' string_enumeration_item  */
-#line 2402 "libyara/grammar.y"
-                                                     { (yyval.integer) = (yyvsp[-2].integer) + (yyvsp[0].integer); }
+  case 128: /* string_enumeration: string_enumeration_item  */
+#line 2407 "libyara/grammar.y"
+                              { (yyval.integer) = (yyvsp[0].integer); }
 #line 4494 "libyara/grammar.c"
     break;
 
-  case 130: /* string_enumeration_item: "string identifier"  */
+  case 129: /* string_enumeration: string_enumeration ',' string_enumeration_item  */
 #line 2408 "libyara/grammar.y"
+                                                     { (yyval.integer) = (yyvsp[-2].integer) + (yyvsp[0].integer); }
+#line 4500 "libyara/grammar.c"
+    break;
+
+  case 130: /* string_enumeration_item: "string identifier"  */
+#line 2414 "libyara/grammar.y"
       {
         int count = 0;
         int result = yr_parser_emit_pushes_for_strings(yyscanner, (yyvsp[0].c_string), &count);
@@ -4504,11 +4510,11 @@ yyreduce:
 
         (yyval.integer) = count;
       }
-#line 4508 "libyara/grammar.c"
+#line 4514 "libyara/grammar.c"
     break;
 
   case 131: /* string_enumeration_item: "string identifier with wildcard"  */
-#line 2418 "libyara/grammar.y"
+#line 2424 "libyara/grammar.y"
       {
         int count = 0;
         int result = yr_parser_emit_pushes_for_strings(yyscanner, (yyvsp[0].c_string), &count);
@@ -4518,40 +4524,40 @@ yyreduce:
 
         (yyval.integer) = count;
       }
-#line 4522 "libyara/grammar.c"
+#line 4528 "libyara/grammar.c"
     break;
 
   case 132: /* $@11: %empty  */
-#line 2432 "libyara/grammar.y"
+#line 2438 "libyara/grammar.y"
       {
         // Push end-of-list marker
         yr_parser_emit_push_const(yyscanner, YR_UNDEFINED);
       }
-#line 4531 "libyara/grammar.c"
+#line 4537 "libyara/grammar.c"
     break;
 
   case 133: /* rule_set: '(' $@11 rule_enumeration ')'  */
-#line 2437 "libyara/grammar.y"
+#line 2443 "libyara/grammar.y"
       {
         (yyval.integer) = (yyvsp[-1].integer);
       }
-#line 4539 "libyara/grammar.c"
-    break;
-
-  case 134: /* rule_enumeration: rule_enumeration_item  */
-#line 2444 "libyara/grammar.y"
-                            { (yyval.integer) = (yyvsp[0].integer); }
 #line 4545 "libyara/grammar.c"
     break;
 
-  case 135: /* rule_enumeration: rule_enumeration ',' rule_enumeration_item  */
-#line 2445 "libyara/grammar.y"
-                                                 { (yyval.integer) = (yyvsp[-2].integer) + (yyvsp[0].integer); }
+  case 134: /* rule_enumeration: rule_enumeration_item  */
+#line 2450 "libyara/grammar.y"
+                            { (yyval.integer) = (yyvsp[0].integer); }
 #line 4551 "libyara/grammar.c"
     break;
 
-  case 136: /* rule_enumeration_item: "identifier"  */
+  case 135: /* rule_enumeration: rule_enumeration ',' rule_enumeration_item  */
 #line 2451 "libyara/grammar.y"
+                                                 { (yyval.integer) = (yyvsp[-2].integer) + (yyvsp[0].integer); }
+#line 4557 "libyara/grammar.c"
+    break;
+
+  case 136: /* rule_enumeration_item: "identifier"  */
+#line 2457 "libyara/grammar.y"
       {
         int result = ERROR_SUCCESS;
 
@@ -4584,11 +4590,11 @@ yyreduce:
 
         (yyval.integer) = 1;
       }
-#line 4588 "libyara/grammar.c"
+#line 4594 "libyara/grammar.c"
     break;
 
   case 137: /* rule_enumeration_item: "identifier" '*'  */
-#line 2484 "libyara/grammar.y"
+#line 2490 "libyara/grammar.y"
       {
         int count = 0;
         YR_NAMESPACE* ns = (YR_NAMESPACE*) yr_arena_get_ptr(
@@ -4609,11 +4615,11 @@ yyreduce:
 
         (yyval.integer) = count;
       }
-#line 4613 "libyara/grammar.c"
+#line 4619 "libyara/grammar.c"
     break;
 
   case 138: /* for_expression: primary_expression  */
-#line 2509 "libyara/grammar.y"
+#line 2515 "libyara/grammar.y"
       {
         if ((yyvsp[0].expression).type == EXPRESSION_TYPE_INTEGER && !IS_UNDEFINED((yyvsp[0].expression).value.integer))
         {
@@ -4669,57 +4675,57 @@ yyreduce:
 
         (yyval.expression).value.integer = (yyvsp[0].expression).value.integer;
       }
-#line 4673 "libyara/grammar.c"
+#line 4679 "libyara/grammar.c"
     break;
 
   case 139: /* for_expression: for_quantifier  */
-#line 2565 "libyara/grammar.y"
+#line 2571 "libyara/grammar.y"
       {
         (yyval.expression).value.integer = (yyvsp[0].expression).value.integer;
       }
-#line 4681 "libyara/grammar.c"
+#line 4687 "libyara/grammar.c"
     break;
 
   case 140: /* for_quantifier: "<all>"  */
-#line 2572 "libyara/grammar.y"
+#line 2578 "libyara/grammar.y"
       {
         yr_parser_emit_push_const(yyscanner, YR_UNDEFINED);
         (yyval.expression).type = EXPRESSION_TYPE_QUANTIFIER;
         (yyval.expression).value.integer = FOR_EXPRESSION_ALL;
      }
-#line 4691 "libyara/grammar.c"
+#line 4697 "libyara/grammar.c"
     break;
 
   case 141: /* for_quantifier: "<any>"  */
-#line 2578 "libyara/grammar.y"
+#line 2584 "libyara/grammar.y"
       {
         yr_parser_emit_push_const(yyscanner, 1);
         (yyval.expression).type = EXPRESSION_TYPE_QUANTIFIER;
         (yyval.expression).value.integer = FOR_EXPRESSION_ANY;
       }
-#line 4701 "libyara/grammar.c"
+#line 4707 "libyara/grammar.c"
     break;
 
   case 142: /* for_quantifier: "<none>"  */
-#line 2584 "libyara/grammar.y"
+#line 2590 "libyara/grammar.y"
       {
         yr_parser_emit_push_const(yyscanner, 0);
         (yyval.expression).type = EXPRESSION_TYPE_QUANTIFIER;
         (yyval.expression).value.integer = FOR_EXPRESSION_NONE;
       }
-#line 4711 "libyara/grammar.c"
+#line 4717 "libyara/grammar.c"
     break;
 
   case 143: /* primary_expression: '(' primary_expression ')'  */
-#line 2594 "libyara/grammar.y"
+#line 2600 "libyara/grammar.y"
       {
         (yyval.expression) = (yyvsp[-1].expression);
       }
-#line 4719 "libyara/grammar.c"
+#line 4725 "libyara/grammar.c"
     break;
 
   case 144: /* primary_expression: "<filesize>"  */
-#line 2598 "libyara/grammar.y"
+#line 2604 "libyara/grammar.y"
       {
         fail_if_error(yr_parser_emit(
             yyscanner, OP_FILESIZE, NULL));
@@ -4727,11 +4733,11 @@ yyreduce:
         (yyval.expression).type = EXPRESSION_TYPE_INTEGER;
         (yyval.expression).value.integer = YR_UNDEFINED;
       }
-#line 4731 "libyara/grammar.c"
+#line 4737 "libyara/grammar.c"
     break;
 
   case 145: /* primary_expression: "<entrypoint>"  */
-#line 2606 "libyara/grammar.y"
+#line 2612 "libyara/grammar.y"
       {
         yywarning(yyscanner,
             "using deprecated \"entrypoint\" keyword. Use the \"entry_point\" "
@@ -4743,11 +4749,11 @@ yyreduce:
         (yyval.expression).type = EXPRESSION_TYPE_INTEGER;
         (yyval.expression).value.integer = YR_UNDEFINED;
       }
-#line 4747 "libyara/grammar.c"
+#line 4753 "libyara/grammar.c"
     break;
 
   case 146: /* primary_expression: "integer function" '(' primary_expression ')'  */
-#line 2618 "libyara/grammar.y"
+#line 2624 "libyara/grammar.y"
       {
         check_type((yyvsp[-1].expression), EXPRESSION_TYPE_INTEGER, "intXXXX or uintXXXX");
 
@@ -4761,33 +4767,33 @@ yyreduce:
         (yyval.expression).type = EXPRESSION_TYPE_INTEGER;
         (yyval.expression).value.integer = YR_UNDEFINED;
       }
-#line 4765 "libyara/grammar.c"
+#line 4771 "libyara/grammar.c"
     break;
 
   case 147: /* primary_expression: "integer number"  */
-#line 2632 "libyara/grammar.y"
+#line 2638 "libyara/grammar.y"
       {
         fail_if_error(yr_parser_emit_push_const(yyscanner, (yyvsp[0].integer)));
 
         (yyval.expression).type = EXPRESSION_TYPE_INTEGER;
         (yyval.expression).value.integer = (yyvsp[0].integer);
       }
-#line 4776 "libyara/grammar.c"
+#line 4782 "libyara/grammar.c"
     break;
 
   case 148: /* primary_expression: "floating point number"  */
-#line 2639 "libyara/grammar.y"
+#line 2645 "libyara/grammar.y"
       {
         fail_if_error(yr_parser_emit_with_arg_double(
             yyscanner, OP_PUSH, (yyvsp[0].double_), NULL, NULL));
 
         (yyval.expression).type = EXPRESSION_TYPE_FLOAT;
       }
-#line 4787 "libyara/grammar.c"
+#line 4793 "libyara/grammar.c"
     break;
 
   case 149: /* primary_expression: "text string"  */
-#line 2646 "libyara/grammar.y"
+#line 2652 "libyara/grammar.y"
       {
         YR_ARENA_REF ref;
 
@@ -4812,11 +4818,11 @@ yyreduce:
         (yyval.expression).type = EXPRESSION_TYPE_STRING;
         (yyval.expression).value.sized_string_ref = ref;
       }
-#line 4816 "libyara/grammar.c"
+#line 4822 "libyara/grammar.c"
     break;
 
   case 150: /* primary_expression: "string count" "<in>" range  */
-#line 2671 "libyara/grammar.y"
+#line 2677 "libyara/grammar.y"
       {
         int result = yr_parser_reduce_string_identifier(
             yyscanner, (yyvsp[-2].c_string), OP_COUNT_IN, YR_UNDEFINED);
@@ -4828,11 +4834,11 @@ yyreduce:
         (yyval.expression).type = EXPRESSION_TYPE_INTEGER;
         (yyval.expression).value.integer = YR_UNDEFINED;
       }
-#line 4832 "libyara/grammar.c"
+#line 4838 "libyara/grammar.c"
     break;
 
   case 151: /* primary_expression: "string count"  */
-#line 2683 "libyara/grammar.y"
+#line 2689 "libyara/grammar.y"
       {
         int result = yr_parser_reduce_string_identifier(
             yyscanner, (yyvsp[0].c_string), OP_COUNT, YR_UNDEFINED);
@@ -4844,11 +4850,11 @@ yyreduce:
         (yyval.expression).type = EXPRESSION_TYPE_INTEGER;
         (yyval.expression).value.integer = YR_UNDEFINED;
       }
-#line 4848 "libyara/grammar.c"
+#line 4854 "libyara/grammar.c"
     break;
 
   case 152: /* primary_expression: "string offset" '[' primary_expression ']'  */
-#line 2695 "libyara/grammar.y"
+#line 2701 "libyara/grammar.y"
       {
         int result = yr_parser_reduce_string_identifier(
             yyscanner, (yyvsp[-3].c_string), OP_OFFSET, YR_UNDEFINED);
@@ -4860,11 +4866,11 @@ yyreduce:
         (yyval.expression).type = EXPRESSION_TYPE_INTEGER;
         (yyval.expression).value.integer = YR_UNDEFINED;
       }
-#line 4864 "libyara/grammar.c"
+#line 4870 "libyara/grammar.c"
     break;
 
   case 153: /* primary_expression: "string offset"  */
-#line 2707 "libyara/grammar.y"
+#line 2713 "libyara/grammar.y"
       {
         int result = yr_parser_emit_push_const(yyscanner, 1);
 
@@ -4879,11 +4885,11 @@ yyreduce:
         (yyval.expression).type = EXPRESSION_TYPE_INTEGER;
         (yyval.expression).value.integer = YR_UNDEFINED;
       }
-#line 4883 "libyara/grammar.c"
+#line 4889 "libyara/grammar.c"
     break;
 
   case 154: /* primary_expression: "string length" '[' primary_expression ']'  */
-#line 2722 "libyara/grammar.y"
+#line 2728 "libyara/grammar.y"
       {
         int result = yr_parser_reduce_string_identifier(
             yyscanner, (yyvsp[-3].c_string), OP_LENGTH, YR_UNDEFINED);
@@ -4895,11 +4901,11 @@ yyreduce:
         (yyval.expression).type = EXPRESSION_TYPE_INTEGER;
         (yyval.expression).value.integer = YR_UNDEFINED;
       }
-#line 4899 "libyara/grammar.c"
+#line 4905 "libyara/grammar.c"
     break;
 
   case 155: /* primary_expression: "string length"  */
-#line 2734 "libyara/grammar.y"
+#line 2740 "libyara/grammar.y"
       {
         int result = yr_parser_emit_push_const(yyscanner, 1);
 
@@ -4914,11 +4920,11 @@ yyreduce:
         (yyval.expression).type = EXPRESSION_TYPE_INTEGER;
         (yyval.expression).value.integer = YR_UNDEFINED;
       }
-#line 4918 "libyara/grammar.c"
+#line 4924 "libyara/grammar.c"
     break;
 
   case 156: /* primary_expression: identifier  */
-#line 2749 "libyara/grammar.y"
+#line 2755 "libyara/grammar.y"
       {
         int result = ERROR_SUCCESS;
 
@@ -4964,11 +4970,11 @@ yyreduce:
 
         fail_if_error(result);
       }
-#line 4968 "libyara/grammar.c"
+#line 4974 "libyara/grammar.c"
     break;
 
   case 157: /* primary_expression: '-' primary_expression  */
-#line 2795 "libyara/grammar.y"
+#line 2801 "libyara/grammar.y"
       {
         int result = ERROR_SUCCESS;
 
@@ -4989,11 +4995,11 @@ yyreduce:
 
         fail_if_error(result);
       }
-#line 4993 "libyara/grammar.c"
+#line 4999 "libyara/grammar.c"
     break;
 
   case 158: /* primary_expression: primary_expression '+' primary_expression  */
-#line 2816 "libyara/grammar.y"
+#line 2822 "libyara/grammar.y"
       {
         int result = yr_parser_reduce_operation(
             yyscanner, "+", (yyvsp[-2].expression), (yyvsp[0].expression));
@@ -5028,11 +5034,11 @@ yyreduce:
 
         fail_if_error(result);
       }
-#line 5032 "libyara/grammar.c"
+#line 5038 "libyara/grammar.c"
     break;
 
   case 159: /* primary_expression: primary_expression '-' primary_expression  */
-#line 2851 "libyara/grammar.y"
+#line 2857 "libyara/grammar.y"
       {
         int result = yr_parser_reduce_operation(
             yyscanner, "-", (yyvsp[-2].expression), (yyvsp[0].expression));
@@ -5067,11 +5073,11 @@ yyreduce:
 
         fail_if_error(result);
       }
-#line 5071 "libyara/grammar.c"
+#line 5077 "libyara/grammar.c"
     break;
 
   case 160: /* primary_expression: primary_expression '*' primary_expression  */
-#line 2886 "libyara/grammar.y"
+#line 2892 "libyara/grammar.y"
       {
         int result = yr_parser_reduce_operation(
             yyscanner, "*", (yyvsp[-2].expression), (yyvsp[0].expression));
@@ -5105,11 +5111,11 @@ yyreduce:
 
         fail_if_error(result);
       }
-#line 5109 "libyara/grammar.c"
+#line 5115 "libyara/grammar.c"
     break;
 
   case 161: /* primary_expression: primary_expression '\\' primary_expression  */
-#line 2920 "libyara/grammar.y"
+#line 2926 "libyara/grammar.y"
       {
         int result = yr_parser_reduce_operation(
             yyscanner, "\\", (yyvsp[-2].expression), (yyvsp[0].expression));
@@ -5140,11 +5146,11 @@ yyreduce:
 
         fail_if_error(result);
       }
-#line 5144 "libyara/grammar.c"
+#line 5150 "libyara/grammar.c"
     break;
 
   case 162: /* primary_expression: primary_expression '%' primary_expression  */
-#line 2951 "libyara/grammar.y"
+#line 2957 "libyara/grammar.y"
       {
         check_type((yyvsp[-2].expression), EXPRESSION_TYPE_INTEGER, "%");
         check_type((yyvsp[0].expression), EXPRESSION_TYPE_INTEGER, "%");
@@ -5167,11 +5173,11 @@ yyreduce:
           fail_if_error(ERROR_DIVISION_BY_ZERO);
         }
       }
-#line 5171 "libyara/grammar.c"
+#line 5177 "libyara/grammar.c"
     break;
 
   case 163: /* primary_expression: primary_expression '^' primary_expression  */
-#line 2974 "libyara/grammar.y"
+#line 2980 "libyara/grammar.y"
       {
         check_type((yyvsp[-2].expression), EXPRESSION_TYPE_INTEGER, "^");
         check_type((yyvsp[0].expression), EXPRESSION_TYPE_INTEGER, "^");
@@ -5181,11 +5187,11 @@ yyreduce:
         (yyval.expression).type = EXPRESSION_TYPE_INTEGER;
         (yyval.expression).value.integer = OPERATION(^, (yyvsp[-2].expression).value.integer, (yyvsp[0].expression).value.integer);
       }
-#line 5185 "libyara/grammar.c"
+#line 5191 "libyara/grammar.c"
     break;
 
   case 164: /* primary_expression: primary_expression '&' primary_expression  */
-#line 2984 "libyara/grammar.y"
+#line 2990 "libyara/grammar.y"
       {
         check_type((yyvsp[-2].expression), EXPRESSION_TYPE_INTEGER, "^");
         check_type((yyvsp[0].expression), EXPRESSION_TYPE_INTEGER, "^");
@@ -5195,11 +5201,11 @@ yyreduce:
         (yyval.expression).type = EXPRESSION_TYPE_INTEGER;
         (yyval.expression).value.integer = OPERATION(&, (yyvsp[-2].expression).value.integer, (yyvsp[0].expression).value.integer);
       }
-#line 5199 "libyara/grammar.c"
+#line 5205 "libyara/grammar.c"
     break;
 
   case 165: /* primary_expression: primary_expression '|' primary_expression  */
-#line 2994 "libyara/grammar.y"
+#line 3000 "libyara/grammar.y"
       {
         check_type((yyvsp[-2].expression), EXPRESSION_TYPE_INTEGER, "|");
         check_type((yyvsp[0].expression), EXPRESSION_TYPE_INTEGER, "|");
@@ -5209,11 +5215,11 @@ yyreduce:
         (yyval.expression).type = EXPRESSION_TYPE_INTEGER;
         (yyval.expression).value.integer = OPERATION(|, (yyvsp[-2].expression).value.integer, (yyvsp[0].expression).value.integer);
       }
-#line 5213 "libyara/grammar.c"
+#line 5219 "libyara/grammar.c"
     break;
 
   case 166: /* primary_expression: '~' primary_expression  */
-#line 3004 "libyara/grammar.y"
+#line 3010 "libyara/grammar.y"
       {
         check_type((yyvsp[0].expression), EXPRESSION_TYPE_INTEGER, "~");
 
@@ -5223,11 +5229,11 @@ yyreduce:
         (yyval.expression).value.integer = ((yyvsp[0].expression).value.integer == YR_UNDEFINED) ?
             YR_UNDEFINED : ~((yyvsp[0].expression).value.integer);
       }
-#line 5227 "libyara/grammar.c"
+#line 5233 "libyara/grammar.c"
     break;
 
   case 167: /* primary_expression: primary_expression "<<" primary_expression  */
-#line 3014 "libyara/grammar.y"
+#line 3020 "libyara/grammar.y"
       {
         int result;
 
@@ -5247,11 +5253,11 @@ yyreduce:
 
         fail_if_error(result);
       }
-#line 5251 "libyara/grammar.c"
+#line 5257 "libyara/grammar.c"
     break;
 
   case 168: /* primary_expression: primary_expression ">>" primary_expression  */
-#line 3034 "libyara/grammar.y"
+#line 3040 "libyara/grammar.y"
       {
         int result;
 
@@ -5271,19 +5277,19 @@ yyreduce:
 
         fail_if_error(result);
       }
-#line 5275 "libyara/grammar.c"
+#line 5281 "libyara/grammar.c"
     break;
 
   case 169: /* primary_expression: regexp  */
-#line 3054 "libyara/grammar.y"
+#line 3060 "libyara/grammar.y"
       {
         (yyval.expression) = (yyvsp[0].expression);
       }
-#line 5283 "libyara/grammar.c"
+#line 5289 "libyara/grammar.c"
     break;
 
 
-#line 5287 "libyara/grammar.c"
+#line 5293 "libyara/grammar.c"
 
       default: break;
     }
@@ -5507,5 +5513,5 @@ yyreturnlab:
   return yyresult;
 }
 
-#line 3059 "libyara/grammar.y"
+#line 3065 "libyara/grammar.y"
 
